@@ -2,6 +2,7 @@
    op 9: dst.clone_from(&src) (src = identities 0.., dst = identities 100..)
    case: [op; form; elem; N; pan; front; back; mode]
    elem: 0 Tr (x Tr), 1 u32 (x u32), 2 Tr x u32, 3 u32 x Tr (zip only), 4 Cn (Clone only), 5 zero-sized, 6 zero-sized with a counted destructor (generate / default only),
+         8 plain 12-byte elements (size <> alignment), 9 / 10 zips of plain arrays whose element sizes differ (2 x 4, 4 x 2 -> 12): as elem 1,
          7 Tr mapped to plain u32 (map only);
    mode (how the caller's code fails: own panic / destructor of an argument) does not change
    what the crate has to do *)
